@@ -99,6 +99,8 @@ def run(tier, seed):
             ck.cov["_pass"] = ck.cov.get("_pass", 0) + 1
         ck.cov.pop("_pass", None)
         failing += f8_replay(ck, tmp)
+        import c01
+        failing += c01.hash_contract_stream(ck)
         ck.cov["rule"] = ("kinds: digest/size from file, file_direct, raw; payload by path; dependency inline / by path (depth 2-3); "
                           "digest and size of a dependency by envelope; sizes x algorithms x reference forms enumerated (quick: all sizes "
                           "for one form each + all algorithms at size 255; thorough: full cross product); every case: model bytes == "
